@@ -154,6 +154,30 @@ def _rand_data(rng, vk, bits, n):
     return [Fraction(rng.randint(-64, 64), rng.choice([1, 2, 4, 8])) for _ in range(n)]
 
 
+def _random_seq_history(rng, big):
+    """items are one-element tuples, zero a tuple: `+` is concatenation, the summing ORDER is visible"""
+    k = [0]
+
+    def items(n):
+        k[0] += n
+        return list(range(k[0] - n + 1, k[0] + 1))
+    ops = []
+    p_next = rng.choice([0.0, 0.3, 0.6])
+    for _ in range(rng.randint(2, 30 if big else 10)):
+        if rng.random() < p_next:
+            ops.extend([NEXT] * rng.choice([1, 1, 2, 3]))
+        else:
+            d, dk = _rand_delta(rng)
+            if rng.random() < 0.5:
+                d, dk = rng.choice([0, 0, Fraction(1, 2), 1]), "float"
+            ops.append(_add(d, items(rng.choice([0, 1, 2, 3, 5, 8])), dk=dk, vk="seq",
+                            c=rng.choice(["list", "tuple", "iter", "gen"])))
+    c = _case(ops, keep=rng.random() < 0.2, zero=0, zk="seq", drain=True)
+    c["entry"] = "streamix_seq"
+    c["zero"] = rng.choice([[], [], [0]])
+    return c
+
+
 def _random_history(rng, big):
     vk = rng.choice(["int", "int", "frac", "float"])
     defaults = rng.random() < 0.1 and vk != "frac"   # Streamix() with its own defaults: keep False, zero 0.
@@ -227,9 +251,10 @@ def _exact_ok(c):
     """float regime discipline: wherever a float takes part, every number is a small dyadic
     (|x| < 2**20, denominator <= 64) and no Fraction with another denominator is mixed in, so that
     every sum / comparison the impl makes in binary floating point is exact."""
-    if c["entry"] != "streamix":
+    if c["entry"] == "control":
         return True
-    nums, floaty = [dec(c["zero"])], c["zk"] == "float"
+    seq = c["entry"] == "streamix_seq"
+    nums, floaty = ([] if seq else [dec(c["zero"])]), c["zk"] == "float"
     for op in c["ops"]:
         if op["op"] == "add":
             if op.get("vk") == "float":
@@ -256,7 +281,10 @@ def _generate(rng, tier, scale=1):
         cases += _exhaustive(tier)
     nrand = (1200 if tier == "quick" else 40000) * scale
     for i in range(nrand):
-        cases.append(_random_history(rng, big=(i % 4 == 0)))
+        if i % 8 == 3:
+            cases.append(_random_seq_history(rng, big=(i % 16 == 3)))
+        else:
+            cases.append(_random_history(rng, big=(i % 4 == 0)))
     cases += _control_cases(rng, tier, scale)
     return cases
 
@@ -274,8 +302,11 @@ def _len(obj, name):
 
 def _impl_streamix(c):
     from audiolazy import Streamix
+    seq = c["entry"] == "streamix_seq"
     if c.get("defaults"):
         smix = Streamix()
+    elif seq:
+        smix = Streamix(keep=c["keep"], zero=tuple(c["zero"]))
     else:
         smix = Streamix(keep=c["keep"], zero=val(c["zero"], c["zk"]))
     it = iter(smix)
@@ -283,7 +314,7 @@ def _impl_streamix(c):
     for op in c["ops"]:
         cnt = None
         if op["op"] == "add":
-            data = [val(x, op.get("vk", "int")) for x in op["data"]]
+            data = [(x,) for x in op["data"]] if seq else [val(x, op.get("vk", "int")) for x in op["data"]]
             try:
                 smix.add(val(op["delta"], op.get("dk", "int")), container(data, op.get("c", "list")))
                 o = "ok"
@@ -294,7 +325,7 @@ def _impl_streamix(c):
             try:
                 v = next(it)
                 qa = _len(smix, "_not_playing")
-                o = {"out": enc(v), "started": (qb - qa) if qb is not None and qa is not None else None}
+                o = {"out": list(v) if seq else enc(v), "started": (qb - qa) if qb is not None and qa is not None else None}
             except StopIteration:
                 o = "stop"
             except Exception as e:
@@ -341,9 +372,9 @@ def _impl_control(c):
 
 def impl(c):
     try:
-        if c["entry"] == "streamix":
-            return _impl_streamix(c)
-        return _impl_control(c)
+        if c["entry"] == "control":
+            return _impl_control(c)
+        return _impl_streamix(c)
     except Exception as e:
         return {"err": err_kind(e)}
 
@@ -357,17 +388,26 @@ def request(c):
             ops.append({"op": "add", "delta": op["delta"], "data": op["data"]})
         else:
             ops.append(op)
-    return {"entry": "streamix", "keep": c["keep"], "zero": c["zero"], "ops": ops}
+    return {"entry": c["entry"], "keep": c["keep"], "zero": c["zero"], "ops": ops}
 
 
 # ----------------------------------------------------------------------------------------------
 # comparison
 # ----------------------------------------------------------------------------------------------
-def _same_obs(a, b):
-    """a: impl observation, b: Lean observation (both JSON).  `started` only when the impl exposes it."""
+def _out_eq(x, y, ordered=True):
+    if isinstance(x, list) or isinstance(y, list):      # tuple regime
+        if not (isinstance(x, list) and isinstance(y, list)):
+            return False
+        return x == y if ordered else sorted(x) == sorted(y)
+    return dec(x) == dec(y)
+
+
+def _same_obs(a, b, ordered=True):
+    """a: impl observation, b: Lean observation (both JSON).  `started` only when the impl exposes it.
+    ordered=False (spec side, tuple regime): the property does not fix the order of the sum."""
     if isinstance(a, dict) and isinstance(b, dict):
         if "out" in a and "out" in b:
-            if dec(a["out"]) != dec(b["out"]):
+            if not _out_eq(a["out"], b["out"], ordered):
                 return False
             return a.get("started") is None or a["started"] == b["started"]
         return a.get("err") is not None and a.get("err") == b.get("err")
@@ -376,7 +416,7 @@ def _same_obs(a, b):
 
 def _first_diff_spec(c, io, drv):
     for k, (st, so) in enumerate(zip(io["steps"], drv["spec"])):
-        if not _same_obs(st[0], so):
+        if not _same_obs(st[0], so, ordered=False):
             return k
     return None
 
@@ -453,7 +493,10 @@ def tally(eng, c, io):
     eng.count("n_events", min(nadd, 12))
     eng.count("n_ops", min(len(ops) // 10 * 10, 100))
     eng.count("keep", c["keep"])
-    eng.count("zero_kind", c["zk"] + ("" if dec(c["zero"]) == 0 else "-nonzero"))
+    if c["entry"] == "streamix_seq":
+        eng.count("zero_kind", "tuple" + ("" if not c["zero"] else "-nonempty"))
+    else:
+        eng.count("zero_kind", c["zk"] + ("" if dec(c["zero"]) == 0 else "-nonzero"))
     seen_next = False
     stopped = False
     half_tie = False
@@ -538,7 +581,7 @@ def _shrink(c):
         data = op["data"]
         if data:
             yield dict(c, ops=ops[:i] + [dict(op, data=data[:-1])] + ops[i + 1:])
-            if any(x != 1 for x in data):
+            if any(x != 1 for x in data) and c["entry"] == "streamix":
                 yield dict(c, ops=ops[:i] + [dict(op, data=[1] * len(data), vk="int")] + ops[i + 1:])
         d = dec(op["delta"])
         for d2 in (Fraction(0), Fraction(int(d)), d - 1, Fraction(int(2 * d), 2)):
@@ -546,7 +589,10 @@ def _shrink(c):
                 yield dict(c, ops=ops[:i] + [dict(op, delta=enc(d2), dk=("int" if d2.denominator == 1 else op.get("dk", "float")))] + ops[i + 1:])
         if op.get("c", "list") != "list":
             yield dict(c, ops=ops[:i] + [dict(op, c="list")] + ops[i + 1:])
-    if dec(c["zero"]) != 0 or c["zk"] != "int":
+    if c["entry"] == "streamix_seq":
+        if c["zero"]:
+            yield dict(c, zero=[])
+    elif dec(c["zero"]) != 0 or c["zk"] != "int":
         yield dict(c, zero=0, zk="int")
     if c.get("defaults"):
         d = dict(c)
@@ -568,7 +614,7 @@ def _neighbours(c):
             for d2 in (d + H, d - H, d + 1, Fraction(int(d)) + H):
                 if d2 >= 0:
                     yield dict(c, ops=ops[:i] + [dict(op, delta=enc(d2), dk="float")] + ops[i + 1:])
-            yield dict(c, ops=ops[:i] + [dict(op, data=op["data"] + [1])] + ops[i + 1:])
+            yield dict(c, ops=ops[:i] + [dict(op, data=op["data"] + [999 + i])] + ops[i + 1:])
         yield dict(c, ops=ops[:i] + [NEXT] + ops[i:])
 
 
@@ -590,6 +636,6 @@ def classify(c, io, drv):
     a, b = io["steps"][k][0], drv["spec"][k]
     ka, kb = _kind(a), _kind(b)
     if ka == "out" and kb == "out":
-        what = "value" if dec(a["out"]) != dec(b["out"]) else "started"
+        what = "value" if not _out_eq(a["out"], b["out"], False) else "started"
         return "streamix:%s:out-%s" % (c["ops"][k]["op"], what)
     return "streamix:%s:impl=%s,spec=%s" % (c["ops"][k]["op"], ka, kb)
